@@ -190,7 +190,17 @@ pub fn damage(rng: &mut Rng, h: &mut GHeader) {
             }
             let i = rng.below(h.entries.len() as u64) as usize;
             let e = &mut h.entries[i];
-            match rng.below(5) {
+            match rng.below(6) {
+                5 => {
+                    // a second (third, ...) index entry over the SAME store bytes: parse_header charges every entry's data
+                    // against the length of the data section, so this is refused (class overlap) unless the store has that
+                    // much slack or the data is empty
+                    let mut dup = e.clone();
+                    for _ in 0..(1 + rng.below(3)) {
+                        dup.tag = dup.tag.wrapping_add(1);
+                        h.entries.push(dup.clone());
+                    }
+                }
                 0 => e.ty = *rng.pick(&[0u32, 1, 2, 3, 4, 5, 6, 7, 8, 9, 10, 11, u32::MAX]),
                 1 => e.off = *rng.pick(&[-1i32, 0, (len - 1) as i32, len as i32, (len + 1) as i32, i32::MIN, i32::MAX]),
                 2 => e.cnt = *rng.pick(&[0u32, 1, len as u32, (len + 1) as u32, 0x8000_0000, u32::MAX]),
